@@ -2,6 +2,7 @@
 import vlib
 from vlib import hx
 from hubcommon import HubMode
+import c12
 
 RULE = ("chanmap mode: op sequences add/deleteChild/deleteAndCloseChild/deleteParent/deleteAndCloseParent over <=3 parents "
         "(incl. empty name), 85% following the hub's discipline (fresh child + fresh channel per add; e.g. deny -> disconnect -> "
@@ -93,5 +94,17 @@ class ChanMapMode(vlib.Mode):
         return res
 
 
+class StressForC08(c12.StressMode):
+    """the same concurrent windows as C12 (status polls + flooding writers + connects/disconnects): here what is judged is that
+    the relay neither deadlocks nor exits and still serves afterwards"""
+    def generate(self, rng, tier):
+        if tier == "quick":
+            return [[f"stress {ms} {rng.randrange(10**6)} 16"] for ms in (1500, 1500)]
+        return [[f"stress {ms} {rng.randrange(10**6)} {w}"] for ms in (2000, 4000) for w in (16, 32)]
+
+    def run_impl(self, impl_exe, cases, tier):
+        return vlib.run_cases_isolating([impl_exe, "stress"], cases, timeout=600, env=vlib.GOENV, chunk=1)
+
+
 def modes(tier):
-    return [ChanMapMode(), HubMode("C08")]
+    return [ChanMapMode(), HubMode("C08"), StressForC08()]
